@@ -1,7 +1,7 @@
 (* C08 - the independent specification the trainer model is proved against: sums over spike pairs.
    Spike trains are lists of booleans indexed by the time step (oldest first).  Definitions only. *)
 From Coq Require Import List ZArith Reals Bool.
-From Inferno Require Import C08.Stdp.
+From Inferno Require Import Base.Num Base.NumR C08.Stdp.
 Import ListNotations.
 Open Scope R_scope.
 Local Notation exp := Rtrigo_def.exp.
@@ -45,3 +45,57 @@ Fixpoint elig (dt tauz : R) (c : nat -> R) (t : nat) : R :=
 (* sum of g over the steps 0 .. n-1 *)
 Fixpoint sum_steps (n : nat) (g : nat -> R) : R :=
   match n with O => 0 | S j => sum_steps j g + g j end.
+
+(* ------------------------------------------------------------------ what the theorems are stated about *)
+(* value of an optional update part (None: nothing accumulated) *)
+Definition ov (o : option R) : R := match o with Some x => x | None => 0 end.
+(* the sign convention of the trainers: a rate >= 0 potentiates *)
+Definition sgn (x : R) : R := if nonneg RN x then 1 else -1.
+(* single-sample inputs *)
+Definition inps1 (hs : list ((bool * bool) * signal RN)) : list (list (bool * bool) * signal RN) :=
+  map (fun x => ([fst x], snd x)) hs.
+Definition nosig (h : list (bool * bool)) : list ((bool * bool) * signal RN) := map (fun pq => (pq, SigNone RN)) h.
+(* history with the reward signal M and the scale gamma given to each trainer call *)
+Definition withsig (hx : list ((bool * bool) * (R * R))) : list ((bool * bool) * signal RN) :=
+  map (fun x => (fst x, SigScalar RN (fst (snd x)) (snd (snd x)))) hx.
+(* weight of step t: M(t) * |gamma(t)| *)
+Definition sigw (hx : list ((bool * bool) * (R * R))) (t : nat) : R :=
+  fst (nth t (map snd hx) (0, 0)) * Rabs (snd (nth t (map snd hx) (0, 0))).
+(* the step time is positive; a connection with delays has delayedby = kmax * dt and this synapse's delay is
+   k <= kmax steps (Connection.delay is clamped to [0, delayedby]) *)
+Definition grid_ok (c : config RN) (k : nat) : Prop :=
+  0 < c_dt RN c /\
+  (c_delayedby RN c = None \/
+   exists kmax : nat, c_delayedby RN c = Some (INR kmax * c_dt RN c) /\ (k <= kmax)%nat).
+(* the weight change of a fresh single-sample cell trained over the history h (oldest first; every step: the
+   layer runs, the trainer is called; at the end the accumulated update is applied) *)
+Definition weight_change (c : config RN) (k : nat) (inps : list ((bool * bool) * signal RN)) : R :=
+  ov (acc_update RN (final_acc RN (run RN c k (init_batch RN 1) (inps1 inps)))).
+(* presynaptic train as it reaches the synapse, postsynaptic train *)
+Definition pre_train (c : config RN) (k : nat) (h : list (bool * bool)) : list bool :=
+  shift (if has_delay RN c then k else O) (map fst h).
+Definition post_train (h : list (bool * bool)) : list bool := map snd h.
+Definition set_delayed (c : config RN) (b : bool) : config RN :=
+  mkConfig RN (c_trainer RN c) (c_mode RN c) (c_dt RN c) (c_lr_post RN c) (c_lr_pre RN c) (c_tc_post RN c) (c_tc_pre RN c)
+           (c_lr_post3 RN c) (c_lr_pre3 RN c) (c_tc_post_slow RN c) (c_tc_pre_slow RN c) (c_tc_elig RN c) b
+           (c_delayedby RN c) (c_red RN c).
+(* the contribution of step t documented for pair-based STDP on the trains P (presynaptic, as it reaches the synapse)
+   and Q (postsynaptic): eta_post [post spike at t] (sum over its partners) + eta_pre [pre spike at t] (sum over its partners) *)
+Definition stdp_contrib (m : tmode) (dt lr_post lr_pre tc_pre tc_post : R) (P Q : list bool) (t : nat) : R :=
+  lr_post * (b2r (nth t Q false) * partner_sum m dt tc_pre P t)
+  + lr_pre * (b2r (nth t P false) * partner_sum m dt tc_post Q t).
+(* the inputs seen by sample b of a batched run *)
+Definition sample (b : nat) (inps : list (list (bool * bool) * signal RN)) : list ((bool * bool) * signal RN) :=
+  map (fun i => (nth b (fst i) (false, false), snd i)) inps.
+(* weight change of a fresh cell with B samples *)
+Definition weight_change_batch (c : config RN) (k : nat) (B : nat) (inps : list (list (bool * bool) * signal RN)) : R :=
+  ov (acc_update RN (final_acc RN (run RN c k (init_batch RN B) inps))).
+(* signals applied to the whole batch (no signal, or a scalar signal) *)
+Definition batch_signal (sg : signal RN) : Prop := match sg with SigTensor _ _ _ => False | _ => True end.
+Definition set_trainer (c : config RN) (t : trainer) : config RN :=
+  mkConfig RN t (c_mode RN c) (c_dt RN c) (c_lr_post RN c) (c_lr_pre RN c) (c_tc_post RN c) (c_tc_pre RN c)
+           (c_lr_post3 RN c) (c_lr_pre3 RN c) (c_tc_post_slow RN c) (c_tc_pre_slow RN c) (c_tc_elig RN c) (c_delayed RN c)
+           (c_delayedby RN c) (c_red RN c).
+(* folding a one-step kernel over a train of observations given newest first (None before the first observation) *)
+Fixpoint fold_kernel (f : bool -> option R -> R) (obs : list bool) : option R :=
+  match obs with [] => None | o :: r => Some (f o (fold_kernel f r)) end.
